@@ -39,10 +39,10 @@ func supplyMenu(w *world.World, o menuOpts) []world.Action {
 			for _, q := range dedupQ(0, 1, 2) {
 				acts = append(acts, uni.Call(a, a, vmcommon.BuiltInFunctionESDTLocalMint, tok, uni.Big(q)))
 			}
-			if h > 0 || string(tok) == "F" {
+			if h > 0 || string(tok) == tF {
 				for _, q := range dedupQ(0, 1, h, h+1) {
 					acts = append(acts, uni.Call(a, a, vmcommon.BuiltInFunctionESDTLocalBurn, tok, uni.Big(q)))
-					if string(tok) != "S" {
+					if string(tok) != tS {
 						acts = append(acts, uni.Call(a, uni.ESDT, vmcommon.BuiltInFunctionESDTBurn, tok, uni.Big(q)))
 					}
 				}
@@ -56,7 +56,7 @@ func supplyMenu(w *world.World, o menuOpts) []world.Action {
 			if maxN > 3 {
 				maxN = 3
 			}
-			if string(tok) == "F" {
+			if string(tok) == tF {
 				maxN = 1
 			}
 			for n := int64(1); n <= maxN; n++ {
@@ -181,7 +181,7 @@ func accountMenu(w *world.World, o menuOpts) []world.Action {
 		}
 		acts = append(acts, uni.Call(c, c, vmcommon.BuiltInFunctionSaveKeyValue, []byte("k"), []byte("v")))
 		acts = append(acts, uni.Call(c, uni.B0, vmcommon.BuiltInFunctionSaveKeyValue, []byte("k"), []byte("w")))
-		acts = append(acts, uni.Call(c, c, vmcommon.BuiltInFunctionSaveKeyValue, []byte(spec.TokPrefix+"F"), []byte{8, 1}))
+		acts = append(acts, uni.Call(c, c, vmcommon.BuiltInFunctionSaveKeyValue, []byte(spec.TokPrefix+tF), []byte{8, 1}))
 	}
 	return acts
 }
@@ -193,7 +193,7 @@ func impostorMenu(w *world.World, o menuOpts) []world.Action {
 	targets := users(o)
 	payload := func() []byte {
 		if a := w.Get(uni.A0); a != nil {
-			if raw, ok := a.Storage[spec.TokPrefix+"S\x01"]; ok {
+			if raw, ok := a.Storage[spec.TokPrefix+tS1]; ok {
 				return raw
 			}
 		}
